@@ -396,3 +396,93 @@ func VerifH_C06_methods() {
 	vp.Assert("C06.methods.noresidue.args", same)
 	vp.Cover("ALL.c06.methods.later", first >= 1)
 }
+
+// Residue that keeps the argument's type: an implicit T_Init conversion performed while matching a
+// rejected candidate rewrites the argument expression only.
+func VerifH_C06_initresidue() {
+	tint := types.Typ[types.Int]
+	setup := func(pkg *Package) *types.Named {
+		t := types.NewNamed(types.NewTypeName(token.NoPos, pkg.Types, "T", nil), types.NewStruct(nil, nil), nil)
+		pkg.Types.Scope().Insert(t.Obj())
+		sig := types.NewSignatureType(nil, nil, nil, types.NewTuple(types.NewParam(token.NoPos, pkg.Types, "v", tint)), types.NewTuple(types.NewParam(token.NoPos, pkg.Types, "", t)), false)
+		pkg.Types.Scope().Insert(types.NewFunc(token.NoPos, pkg.Types, "T_Init", sig))
+		return t
+	}
+	second := []types.Type{types.Typ[types.String], tint, types.Typ[types.Bool]}
+	ncand := 2 + vp.Choose("ncand", 2)
+	type cand struct {
+		firstIsT bool
+		s        int
+	}
+	cands := make([]cand, ncand)
+	for i := range cands {
+		cands[i] = cand{vp.Choose("t"+string(rune('0'+i)), 2) == 1, vp.Choose("s"+string(rune('0'+i)), 3)}
+	}
+	y := second[vp.Choose("y", 3)]
+	mkFunc := func(pkg *Package, t *types.Named, name string, c cand) *types.Func {
+		var first types.Type = tint
+		if c.firstIsT {
+			first = t
+		}
+		ps := types.NewTuple(types.NewParam(token.NoPos, pkg.Types, "a", first), types.NewParam(token.NoPos, pkg.Types, "b", second[c.s]))
+		f := types.NewFunc(token.NoPos, pkg.Types, name, types.NewSignatureType(nil, nil, nil, ps, nil, false))
+		pkg.Types.Scope().Insert(f)
+		return f
+	}
+	call := func(pkg *Package, fn types.Object) (r verifCallResult) {
+		cb := pkg.CB()
+		var ret *Element
+		class := vp.Try(func() {
+			cb.Val(fn).Val(verifNonConst("x", tint)).Val(verifNonConst("y", y)).Call(2)
+			ret = cb.InternalStack().Pop()
+		})
+		r.fault = class == vp.FaultPanic
+		r.ok = class == vp.NoPanic
+		if r.ok {
+			if c, isCall := ret.Val.(*ast.CallExpr); isCall {
+				r.callee = verifExprKey(c.Fun)
+				for _, a := range c.Args {
+					r.argKeys = append(r.argKeys, verifExprKey(a))
+				}
+			}
+		}
+		return
+	}
+	single := make([]verifCallResult, ncand)
+	for i, c := range cands {
+		p := verifNewPkg()
+		t := setup(p)
+		single[i] = call(p, mkFunc(p, t, "f__"+string(rune('0'+i)), c))
+		vp.Assert("C17.c06.initresidue.nofault", !single[i].fault)
+	}
+	pkg := verifNewPkg()
+	t := setup(pkg)
+	var fns []types.Object
+	for i, c := range cands {
+		fns = append(fns, mkFunc(pkg, t, "f__"+string(rune('0'+i)), c))
+	}
+	ov := NewOverloadFunc(token.NoPos, pkg.Types, "f", fns...)
+	pkg.Types.Scope().Insert(ov)
+	fam := call(pkg, ov)
+	first := -1
+	for i := range single {
+		if single[i].ok {
+			first = i
+			break
+		}
+	}
+	if first < 0 {
+		vp.Assert("C06.initresidue.none", !fam.ok)
+		return
+	}
+	vp.Assert("C06.initresidue.accepted", fam.ok)
+	if fam.ok {
+		vp.Assert("C06.initresidue.callee", fam.callee == single[first].callee)
+		same := len(fam.argKeys) == len(single[first].argKeys)
+		for i := 0; same && i < len(fam.argKeys); i++ {
+			same = fam.argKeys[i] == single[first].argKeys[i]
+		}
+		vp.Assert("C06.initresidue.args", same)
+	}
+	vp.Cover("ALL.c06.initresidue.later", first >= 1)
+}
